@@ -2,7 +2,7 @@ PROP = dict(
   units=['hms', 'hmm'],
   level='other',
   strict_obligations=True,
-  obligations=['hms.iter.*', 'hms.erase.unlinked_retired', 'hms.erase.commit', 'hmm.erase.iff_present', 'hmm.erase.commit', 'hms.guard.raw_pinned', 'hmm.guard.raw_pinned', 'hms.find.position', 'hms.find.ensures_int', 'hmm.iter.*', 'hmm.order.total', 'hmm.find.position', 'hmm.find.requires', 'hmm.mem.safe'],
+  obligations=['hms.iter.*', 'hms.erase.unlinked_retired', 'hms.erase.commit', 'hmm.erase.iff_present', 'hmm.erase.commit', 'hms.sync.orders', 'hmm.sync.orders', 'hms.guard.raw_pinned', 'hmm.guard.raw_pinned', 'hms.find.position', 'hms.find.ensures_int', 'hmm.iter.*', 'hmm.order.total', 'hmm.find.position', 'hmm.find.requires', 'hmm.mem.safe'],
   explanation='Iterator contracts (operator++, erase(iterator), begin, copies) on the extracted text from every state other handles can leave behind (cur live and linked / marked but linked / '
               'marked and unlinked / successor or predecessor changed), no-skip and progress under one or unboundedly many interfering steps (INT), only guarded nodes dereferenced. '
               '"Live" for iteration means "still linked": the fast path may land on a marked but linked node (an erase in flight), which is linearizable by placing the erase at the unlink - therefore "erase(key) has unlinked its node when it returns" (hms.erase.unlinked_retired, hmm.erase.*) is an obligation of this property too.',
